@@ -56,6 +56,64 @@ func runPeriod(name string, tr []bool) periodCase {
 	return periodCase{name, tr, c, p}
 }
 
+// runAuditionPeriods plays one configuration with one auditor `al expects
+// <modality>: <pred>` that audits only while the mood is red, and one
+// activation period per trace: mood red, one sample per observation (5 = the
+// predicate holds, 1 = it does not), mood clear (or, for the last period,
+// possibly the end of the play).  Returns one period case per trace with the
+// result codes reported in that period.
+func runAuditionPeriods(modality string, traces [][]bool, withT bool, lastClosedByFinal bool) []periodCase {
+	pred := "[x s] > 3"
+	if withT {
+		pred = "([x s] > 3) && (t >= 0)"
+	}
+	cfg := "role r\n  :noop true\n  spotlight true\n  signal s scalar at (?P<ts_now>)s=(?P<scalar>\\d+)\nend\n" +
+		"cast\n  x plays r\nend\naudience\n  al audits only while mood == 'red'\n  al expects " + modality + ": " + pred + "\nend\n"
+	var evs []cmd.VerifEvent
+	ts := 0.0
+	type span struct{ from, to int }
+	var spans []span
+	for k, tr := range traces {
+		ts += 0.5
+		from := len(evs)
+		evs = append(evs, cmd.VerifEvent{Kind: "mood", Ts: ts, Mood: "red"})
+		for _, b := range tr {
+			ts += 0.5
+			v := 1.0
+			if b {
+				v = 5.0
+			}
+			evs = append(evs, cmd.VerifEvent{Kind: "sig", Ts: ts, Values: []cmd.VerifValue{{Actor: "x", Sig: "s", IsNum: true, Num: v}}})
+		}
+		ts += 0.5
+		if k == len(traces)-1 && lastClosedByFinal {
+			spans = append(spans, span{from, len(evs)})
+		} else {
+			spans = append(spans, span{from, len(evs)})
+			evs = append(evs, cmd.VerifEvent{Kind: "mood", Ts: ts, Mood: "clear"})
+		}
+	}
+	evs = append(evs, cmd.VerifEvent{Kind: "final", Ts: ts + 1.2871})
+	res := cmd.VerifAudition(cfg, evs, false, false)
+	var out []periodCase
+	for k, tr := range traces {
+		pc := periodCase{Name: modality, Trace: tr, Panic: res.Panic}
+		if res.ParseErr != "" {
+			pc.Panic = "parse: " + res.ParseErr
+		}
+		if res.AuditErr != "" {
+			pc.Panic = "audit error: " + res.AuditErr
+		}
+		for _, o := range res.Outs {
+			if o.Kind == "report" && o.Auditor == "al" && o.Round >= spans[k].from && o.Round <= spans[k].to {
+				pc.Codes = append(pc.Codes, o.Result)
+			}
+		}
+		out = append(out, pc)
+	}
+	return out
+}
+
 func main() {
 	seed := flag.Int64("seed", 1, "")
 	tier := flag.String("tier", "quick", "")
@@ -139,6 +197,44 @@ func main() {
 		}
 	}
 
+	// ---- the same property through the whole audition: checkEvent ->
+	// checkEventForAuditor -> checkExpect / checkActivationPeriodEnd, with
+	// several activation periods per play
+	var audPeriods []periodCase
+	audMax := 4
+	nAudRandom := 6
+	if *tier == "thorough" {
+		audMax, nAudRandom = 6, 40
+	}
+	for _, n := range names {
+		var traces [][]bool
+		for l := 0; l <= audMax; l++ {
+			for bits := 0; bits < 1<<uint(l); bits++ {
+				tr := make([]bool, l)
+				for i := range tr {
+					tr[i] = bits&(1<<uint(i)) != 0
+				}
+				traces = append(traces, tr)
+			}
+		}
+		for i := 0; i < nAudRandom; i++ {
+			tr := make([]bool, audMax+1+rng.Intn(12))
+			for j := range tr {
+				tr[j] = rng.Intn(2) == 0
+			}
+			traces = append(traces, tr)
+		}
+		rng.Shuffle(len(traces), func(i, j int) { traces[i], traces[j] = traces[j], traces[i] })
+		// plays of three periods each
+		for i := 0; i < len(traces); i += 3 {
+			var group [][]bool
+			for j := i; j < i+3 && j < len(traces); j++ {
+				group = append(group, traces[j])
+			}
+			audPeriods = append(audPeriods, runAuditionPeriods(n, group, rng.Intn(2) == 0, rng.Intn(2) == 0)...)
+		}
+	}
+
 	var sb strings.Builder
 	var items []string
 	for _, n := range names {
@@ -155,6 +251,15 @@ func main() {
 	}
 	sb.WriteString("Definition period_cases : list period_case := " + vh.ListNL(items) + ".\n")
 	items = nil
+	for _, c := range audPeriods {
+		var bs []string
+		for _, b := range c.Trace {
+			bs = append(bs, vh.Bool(b))
+		}
+		items = append(items, "("+coqStr(c.Name)+", "+vh.List(bs)+", "+codes(c.Codes, c.Panic)+")")
+	}
+	sb.WriteString("Definition audition_period_cases : list period_case := " + vh.ListNL(items) + ".\n")
+	items = nil
 	for _, c := range raws {
 		var ls []string
 		for _, l := range c.Labels {
@@ -164,7 +269,7 @@ func main() {
 	}
 	sb.WriteString("Definition raw_cases : list raw_case := " + vh.ListNL(items) + ".\n")
 	vh.WriteFile(*out, "cases.v", sb.String())
-	vh.WriteJSON(*out, "cases.json", map[string]interface{}{"accepted": names, "period": periods, "raw": raws})
+	vh.WriteJSON(*out, "cases.json", map[string]interface{}{"accepted": names, "period": periods, "raw": raws, "audition_period": audPeriods})
 	distinct := map[string]bool{}
 	nontriv := 0
 	dis := 0
@@ -185,6 +290,7 @@ func main() {
 	}
 	vh.WriteJSON(*out, "summary.json", map[string]interface{}{
 		"accepted": names, "period": len(periods), "raw": len(raws), "max_exhaustive_len": maxLen,
+		"audition_period": len(audPeriods), "audition_max_exhaustive_len": audMax,
 		"distinct_nontrivial": nontriv, "periods_with_disappointment": dis,
 		"samples": []interface{}{periods[len(periods)/3], periods[len(periods)-1], raws[len(raws)/2]},
 	})
